@@ -376,6 +376,19 @@ type scenarioDef struct {
 	deadlockAt map[int]int
 }
 
+// twelveAmounts: one request, twelve postings with pairwise distinct amounts and two assets.
+func twelveAmounts(ik string) lx.Op {
+	var ps []lx.P
+	for i := 1; i <= 12; i++ {
+		ast := "USD"
+		if i%2 == 0 {
+			ast = "EUR"
+		}
+		ps = append(ps, p("world", fmt.Sprintf("m%d", i%3), ast, fmt.Sprint(i)))
+	}
+	return lx.Op{Kind: "post", Name: "12-amounts ik=" + ik, Postings: ps, IK: ik}
+}
+
 var longRef = strings.Repeat("ref-0123456789-", 140) // 2100 bytes
 
 func init() {
@@ -447,6 +460,7 @@ func init() {
 
 	registerConc(concCheck{
 		id: "C14", boundQ: 2, boundT: -1, quick: 100 * time.Second, thorough: 10 * time.Minute, minOutcomes: 2,
+		sequential: pimport.ReusedReferenceImports(),
 		scenarios: mkScenarios(one, referenceOracle,
 			scenarioDef{name: "two-creates-same-reference", prefix: []lx.Op{seed}, threads: [][]lx.Op{
 				{{Kind: "post", Name: "w>a ref=r", Postings: []lx.P{p("world", "a", "USD", "1")}, Ref: "r"}},
@@ -511,11 +525,18 @@ func init() {
 			scenarioDef{name: "opposite-transfers-deadlock-same-ik", prefix: []lx.Op{seed, post("fund-a", p("world", "a", "USD", "5")), post("fund-b", p("world", "b", "USD", "5"))}, threads: [][]lx.Op{
 				{{Kind: "post", Name: "a>b ik=k", Postings: []lx.P{p("a", "b", "USD", "1")}, IK: "k"}},
 				{{Kind: "post", Name: "b>a ik=k", Postings: []lx.P{p("b", "a", "USD", "1")}, IK: "k"}}}},
+			// a postings request with twelve distinct (amount, asset) pairs, sent twice by each
+			// thread: the script generated from the postings is part of the hashed input, so it
+			// must be the same text every time (seeded change C13c emitted its variable
+			// declarations in map-iteration order: a repeat was refused as a different input)
+			scenarioDef{name: "same-ik-twelve-amounts-twice-each", prefix: []lx.Op{seed}, threads: [][]lx.Op{
+				{twelveAmounts("k"), twelveAmounts("k")},
+				{twelveAmounts("k"), twelveAmounts("k")}}},
 			scenarioDef{name: "sequential-repeat-then-concurrent", prefix: []lx.Op{seed, {Kind: "post", Name: "w>a ik=k", Postings: []lx.P{p("world", "a", "USD", "1")}, IK: "k"}}, threads: [][]lx.Op{
 				{{Kind: "post", Name: "w>a ik=k", Postings: []lx.P{p("world", "a", "USD", "1")}, IK: "k"}},
 				{{Kind: "post", Name: "w>a2 ik=k", Postings: []lx.P{p("world", "a", "USD", "2")}, IK: "k"}}}},
 		),
-		rule: "8 scenarios sharing an idempotency key (same create; same spend with funds for only one; same revert; same delete-metadata; three same account-metadata writes; different inputs; the same script with variables, request metadata, script metadata and an account-metadata parameter; a key already used then repeated and reused concurrently); every schedule with <= bound preemptions (thorough: all), the unique index logs(ledger, idempotency_key) and forgeLog's retry deciding the outcome; oracle: at most one request applied per key, every other caller gets the original log flagged as a hit or an explicit conflict/retryable error, never a business error contradicting the committed outcome; a different input never succeeds; final state == replay of the applied requests",
+		rule: "9 scenarios sharing an idempotency key (same create; one request of twelve postings with pairwise distinct amounts sent twice by each of two threads; same spend with funds for only one; same revert; same delete-metadata; three same account-metadata writes; different inputs; the same script with variables, request metadata, script metadata and an account-metadata parameter; a key already used then repeated and reused concurrently); every schedule with <= bound preemptions (thorough: all), the unique index logs(ledger, idempotency_key) and forgeLog's retry deciding the outcome; oracle: at most one request applied per key, every other caller gets the original log flagged as a hit or an explicit conflict/retryable error, never a business error contradicting the committed outcome; a different input never succeeds; final state == replay of the applied requests",
 	}, reg.Register)
 }
 
